@@ -20,7 +20,7 @@ import vlib
 from vlib import log
 
 CURVES = ["jubjub", "secp256k1", "bls12_381_g1"]
-HEAVY = {"msm", "msm_bounded", "msm_le_bits", "msm_bytes", "mulc"}
+HEAVY = {"msm", "msm_bounded", "msm_le_bits", "msm_bytes", "mulc", "msm_negpair", "msm_dup"}
 NO_TAMPER = {"pub"}
 
 
